@@ -29,6 +29,14 @@ def items(tier):
                     out.append(mk("C12", p, "FindSubmatchIndex", 3, a, extra=g, strategy=strat))
         if tier == "quick":
             out.append(mk("C12", p, "Match", L, a, extra=QG[3], strategy=strat))
+    # literal alternations next to assertions: Match and FindIndex under every configuration, with windows
+    for p, strat, tags in corpus.entries("thorough", tag="lit"):
+        a = alpha_for(p)
+        for g in (QG if tier == "quick" else G12):
+            for pre, post in corpus.windows(p):
+                out.append(mk("C12", p, "Match", L, a, extra=g, strategy=strat, pre=pre, post=post))
+                if tier != "quick":
+                    out.append(mk("C12", p, "FindIndex", L, a, extra=g, strategy=strat, pre=pre, post=post))
     return out
 
 
